@@ -4,7 +4,10 @@ Properties without an entry in checks.json go to not_applicable with the reason 
 not_applicable.json (or a default 'not built yet' reason)."""
 import json, os, subprocess
 V = os.path.dirname(os.path.dirname(os.path.abspath(__file__)))
+import glob
 checks = json.load(open(os.path.join(V, "checks.json")))
+for f in sorted(glob.glob(os.path.join(V, "checks.d", "*.json"))):
+    checks.update(json.load(open(f)))
 props = [json.loads(l) for l in open(os.path.join(V, "properties.jsonl")) if l.strip()]
 na_reasons = {}
 p = os.path.join(V, "not_applicable.json")
